@@ -282,6 +282,19 @@ func genFileSet(r *rand.Rand, o mergeGenOpt) []*mfile {
 				blk.Rels = append(blk.Rels, gen.Relation{Name: "fresh_" + rn, Expr: pickRewrite(r, mergeRelPool)})
 			}
 			blk.Rels = append(blk.Rels, gen.Relation{Name: rn, Expr: pickRewrite(r, mergeRelPool)})
+			if len(rns) > 1 && r.Intn(2) == 0 {
+				// a second clash in the same extension block (order of the two errors must be stable)
+				rn2 := rns[r.Intn(len(rns))]
+				dup := false
+				for _, rel := range blk.Rels {
+					if rel.Name == rn2 {
+						dup = true
+					}
+				}
+				if !dup {
+					blk.Rels = append(blk.Rels, gen.Relation{Name: rn2, Expr: pickRewrite(r, mergeRelPool)})
+				}
+			}
 		case 6: // non-module file
 			if f.Broken != "" {
 				continue
@@ -314,6 +327,9 @@ func genFileSet(r *rand.Rand, o mergeGenOpt) []*mfile {
 		if f.Broken == "syntax" {
 			garbage := []string{"\ntype\n", "\n  define x\n", "\ntype t t\n", "\n$\n", "\ncondition c( {\n}\n"}[r.Intn(5)]
 			f.Txt = strings.TrimRight(f.Txt, "\r\n") + garbage
+			if r.Intn(6) == 0 {
+				f.Txt = []string{"", "\n", "  \n\n", "# only a comment\n"}[r.Intn(4)] // a blank file is no module either
+			}
 		}
 	}
 	if r.Intn(3) == 0 {
